@@ -27,7 +27,7 @@ func tupleIn(vals []driver.Value, width int, tuple []interface{}) bool {
 	return false
 }
 
-var c11Shapes = []string{"has-many-int", "has-many-int-pointers", "composite-int", "composite-int-single", "composite-string-3-1", "composite-string-1-3", "composite-string-nil", "belongs-to", "has-one", "duplicate-parent", "join-nested-preload", "composite-string-backslash", "belongs-to-string-nil", "join-self-nested"}
+var c11Shapes = []string{"has-many-int", "has-many-int-pointers", "composite-int", "composite-int-single", "composite-string-3-1", "composite-string-1-3", "composite-string-nil", "belongs-to", "has-one", "duplicate-parent", "join-nested-preload", "composite-string-backslash", "belongs-to-string-nil", "join-self-nested", "join-self-nested-single"}
 
 func N_C11_Preload(tier int) int { return len(c11Shapes) }
 
@@ -228,7 +228,7 @@ func H_C11_Preload(shape int) {
 	case "belongs-to-string-nil":
 		// outlets: one with a key, one with a NULL foreign key (order symbolic); a region whose key is the text "nil"
 		nullFirst := verifrt.Bool("null_first")
-		code := symKeyStr("code", 3, "nilx")
+		code := symKeyStr("code", 3, "nilx_\\")
 		rowKey := []driver.Value{int64(1), code}
 		rowNull := []driver.Value{int64(2), nil}
 		rows := [][]driver.Value{rowKey, rowNull}
@@ -278,6 +278,29 @@ func H_C11_Preload(shape int) {
 		verifrt.Assert(st[0].Manager != nil && st[0].Manager.ID == 7, "C11.wrong-child")
 		verifrt.Assert(st[0].Manager != nil && st[0].Manager.Manager != nil && st[0].Manager.Manager.ID == 9, "C11.nested-child-missing")
 		verifrt.Assert(st[1].Manager != nil && st[1].Manager.Manager == nil, "C11.null-foreign-key-attached")
+	case "join-self-nested-single":
+		// the same into a single struct (First / Take): a different branch of the preload entry point
+		s.OnQuery = func(text string, args []driver.Value) RowSet {
+			if hasPrefix(text, "SELECT `staffs`") {
+				return RowSet{Cols: []string{"id", "name", "managerid", "Manager__id", "Manager__name", "Manager__managerid"},
+					Rows: [][]driver.Value{{int64(1), "s1", int64(7), int64(7), "m7", int64(9)}}}
+			}
+			rs := RowSet{Cols: []string{"id", "name", "managerid"}}
+			if tupleIn(args, 1, []interface{}{int64(9)}) {
+				rs.Rows = append(rs.Rows, []driver.Value{int64(9), "top", nil})
+			}
+			return rs
+		}
+		var one Staff
+		var err error
+		if verifrt.Bool("take") {
+			err = db.Joins("Manager").Preload("Manager.Manager").Take(&one).Error
+		} else {
+			err = db.Joins("Manager").Preload("Manager.Manager").First(&one).Error
+		}
+		verifrt.Assert(err == nil, "C11.error")
+		verifrt.Assert(one.Manager != nil && one.Manager.ID == 7, "C11.wrong-child")
+		verifrt.Assert(one.Manager != nil && one.Manager.Manager != nil && one.Manager.Manager.ID == 9, "C11.nested-child-missing")
 	case "join-nested-preload":
 		// Joins("Manager").Preload("Manager.Pets"): a row without manager precedes rows with one (order symbolic)
 		order := verifrt.Concretize(verifrt.Intn("order", 0, 2), 0, 2)
